@@ -62,6 +62,11 @@ def kind(x):
         if name == "ifexp":
             a, b = kind(x[3]), kind(x[4])
             return a if a == b else "any"
+        if name == "item":
+            k = kind(x[2])
+            return "str" if k == "str" else ("int" if k == "bytes" else "any")
+        if name == "call" and isinstance(x[2], S) and x[2][:2] == ("op", "attr") and x[2][3] == "save":
+            return "obj"      # Context.save(): a (non-None) source position
         if name == "resolve":
             return "any"
         return "any"
